@@ -425,6 +425,49 @@ def delete_consumers(consumers):
                             "consumer with UUID %s: %s", consumer.uuid, err)
 
 
+def _allocation_objects_for_consumer(context, consumer, created_new_consumer,
+                                     allocation_data):
+    """Return the Allocation objects a PUT /allocations/{consumer_uuid} is to
+    write. If that fails the consumer is removed again when this request has
+    created it.
+    """
+    try:
+        if not allocation_data:
+            # The allocations are empty, which means wipe them out. Internal
+            # to the allocation object this is signalled by a used value of
+            # 0. We verified the consumer's generation in
+            # util.ensure_consumer()
+            # NOTE(jaypipes): This will only occur 1.28+. The JSONSchema will
+            # prevent an empty allocations object from being passed when
+            # there is no consumer generation, so this is safe to do.
+            allocations = alloc_obj.get_all_by_consumer_id(
+                context, consumer.uuid)
+            for allocation in allocations:
+                allocation.used = 0
+                # Use the consumer whose generation was checked, not the one
+                # just re-read along with the allocations.
+                allocation.consumer = consumer
+            return allocations
+        # If the body includes an allocation for a resource provider
+        # that does not exist, raise a 400.
+        rp_objs = _resource_providers_by_uuid(
+            context, allocation_data.keys())
+    except Exception:
+        with excutils.save_and_reraise_exception():
+            if created_new_consumer:
+                delete_consumers([consumer])
+
+    allocation_objects = []
+    for resource_provider_uuid, allocation in allocation_data.items():
+        resource_provider = rp_objs[resource_provider_uuid]
+        new_allocations = _new_allocations(context,
+                                           resource_provider,
+                                           consumer,
+                                           allocation['resources'])
+        allocation_objects.extend(new_allocations)
+    return allocation_objects
+
+
 def _set_allocations_for_consumer(req, schema):
     context = req.environ['placement.context']
     context.can(policies.ALLOC_UPDATE)
@@ -449,7 +492,6 @@ def _set_allocations_for_consumer(req, schema):
             }
         allocation_data = allocations_dict
 
-    allocation_objects = []
     # Consumer object saved in case we need to delete the auto-created consumer
     # record
     consumer = None
@@ -464,44 +506,8 @@ def _set_allocations_for_consumer(req, schema):
             data.get('user_id'), data.get('consumer_generation'),
             data.get('consumer_type'), want_version))
 
-    if not allocation_data:
-        # The allocations are empty, which means wipe them out. Internal
-        # to the allocation object this is signalled by a used value of 0.
-        # We verified the consumer's generation in util.ensure_consumer()
-        # NOTE(jaypipes): This will only occur 1.28+. The JSONSchema will
-        # prevent an empty allocations object from being passed when there is
-        # no consumer generation, so this is safe to do.
-        try:
-            allocations = alloc_obj.get_all_by_consumer_id(
-                context, consumer_uuid)
-        except Exception:
-            with excutils.save_and_reraise_exception():
-                if created_new_consumer:
-                    delete_consumers([consumer])
-        for allocation in allocations:
-            allocation.used = 0
-            # Use the consumer whose generation was checked, not the one
-            # just re-read along with the allocations.
-            allocation.consumer = consumer
-            allocation_objects.append(allocation)
-    else:
-        # If the body includes an allocation for a resource provider
-        # that does not exist, raise a 400.
-        try:
-            rp_objs = _resource_providers_by_uuid(
-                context, allocation_data.keys())
-        except Exception:
-            with excutils.save_and_reraise_exception():
-                if created_new_consumer:
-                    delete_consumers([consumer])
-
-        for resource_provider_uuid, allocation in allocation_data.items():
-            resource_provider = rp_objs[resource_provider_uuid]
-            new_allocations = _new_allocations(context,
-                                               resource_provider,
-                                               consumer,
-                                               allocation['resources'])
-            allocation_objects.extend(new_allocations)
+    allocation_objects = _allocation_objects_for_consumer(
+        context, consumer, created_new_consumer, allocation_data)
 
     @db_api.placement_context_manager.writer
     def _update_consumers_and_create_allocations(ctx):
